@@ -183,7 +183,7 @@ func (fv *FnVerifier) execInstr(in ssa.Instruction, st *State) {
 			return
 		}
 		fv.nilCheck(base.S, fv.exprText(x.X), x.Pos(), x.X)
-		fv.env[x] = Val{T: x.Type(), Addr: &Addr{Arr: fv.fieldKey(pt, stt, x.Field), Ref: base.S, T: ft, Owner: pt, FieldName: stt.Field(x.Field).Name()}}
+		fv.env[x] = Val{T: x.Type(), Addr: fv.dualFieldAddr(&Addr{Arr: fv.fieldKey(pt, stt, x.Field), Ref: base.S, T: ft, Owner: pt, FieldName: stt.Field(x.Field).Name()}, base.S, pt, stt, x.Field)}
 	case *ssa.Field:
 		base := fv.value(x.X, st)
 		stt := x.X.Type().Underlying().(*types.Struct)
@@ -345,6 +345,9 @@ func (fv *FnVerifier) havocAllowed(what string) bool {
 // scalar renders v as an SMT term of Go type t (coercing nil / materialising nothing).
 func (fv *FnVerifier) scalar(v Val, t types.Type) string {
 	if v.Addr != nil {
+		if p, ok := fv.materialize(v.Addr); ok {
+			return p
+		}
 		unsupported("interior pointer stored or passed")
 	}
 	if v.IsNil {
